@@ -71,6 +71,7 @@ class _Patched:
         P.bodies[self.idx] = self.new
         P._cg = None
         P.__dict__.pop("_memo", None)
+        P.__dict__.pop("_inl", None)
         return P
 
     def __exit__(self, *a):
@@ -79,6 +80,7 @@ class _Patched:
         P.bodies[self.idx] = self.old
         P._cg = None
         P.__dict__.pop("_memo", None)
+        P.__dict__.pop("_inl", None)
 
 
 def patched(P, q, transform):
